@@ -198,6 +198,12 @@ def run(ctx):
         ctx.check(bad is None, "R04.2", WATCH, f"legacy {kind} occurrence: kwargs override and extend the arguments",
                   msg=f"legacy trigger_watch, {kind} occurrence with kwargs={{'extra': 1, {collide!r}: 'override'}}: {bad}", key=f"legacy {kind} kwargs", node=tw, rel="trigger.py")
 
+    ctx.rule("R04.7", "the set of entities a state trigger subscribes to: watch= if given, else the names in the expression together with every any-change name", floor=10)
+    watched_set_table(ctx, program, "R04.7")
+
+    ctx.rule("R04.8", "values handed to trigger expressions: event values first, then last known values / attributes, '.old' attributes from the event, None for unknown names of 2-4 parts", floor=40)
+    var_get_table(ctx, program, "R04.8")
+
     ctx.rule("R04.4", "names referenced by a trigger expression: the analysis descends into every construct (only names and dotted names end the descent)", floor=1)
     f = program.func("eval.py::AstEval.get_names_set")
     early = []
@@ -310,3 +316,100 @@ def _gating_legacy(ctx, program):
             bad.append(f"expression={'yes' if has_expr else 'none'}, any-change matched={anyc}, watched changed={chg}, expression truthy={expr}: {sorted(disp)} run(s), specified {want}")
     ctx.check(not bad, "R04.3b", uid, "legacy: run iff any-change matched or (watched changed and expression truthy)", msg=f"TrigInfo.trigger_watch: {bad[:2]}", key="legacy gating table",
               node=f, rel="trigger.py", sample={"cases": len(results)})
+
+
+def watched_set_table(ctx, program, rid):
+    """Both subsystems on every combination of (any-change names, expression, watch=)."""
+    from ..legacy import WATCH, watch_occurrence
+    vuid = "decorators/state.py::StateTriggerDecorator.validate"
+    for any_names in ((), ("d.btn",)):
+        for has_expr in (False, True):
+            if not any_names and not has_expr:
+                continue
+            for watch in (None, ("d.w1", "d.w2")):
+                want = sorted(watch) if watch is not None else sorted(set(any_names) | ({"d.mode"} if has_expr else set()))
+                label = f"any-change names {list(any_names)}, {'an expression reading d.mode' if has_expr else 'no expression'}, watch={list(watch) if watch else None}"
+                # new subsystem: validate()
+                args = [Const(n) for n in any_names] + ([Const("d.mode == 'auto'")] if has_expr else [])
+
+                def create_expression(i, n, a, k, c, o):
+                    return [(c.hset("self._ast_expression", ObjV("expr", "AstEval")), NONE)]
+
+                summ = {"super().validate": lambda i, n, a, k, c, o: [(c, NONE)], "self.create_expression": create_expression,
+                        "STATE_RE.match": lambda i, n, a, k, c, o: [(c, ObjV("m", "Match") if isinstance(a[0], Const) and " " not in a[0].v else NONE)],
+                        "self.has_expression": lambda i, n, a, k, c, o: [(c, Const(c.heap.get("self._ast_expression", NONE) != NONE))],
+                        "self._ast_expression.get_names": lambda i, n, a, k, c, o: [(c, ListV((Const("d.mode"),), "set"))]}
+                pol = FlowPolicy(program, may_raise_all=False, cancel=False, summaries=summ, globals_={"WaitUntilDecoratorManager": ClassV("WaitUntilDecoratorManager")})
+                pol.loop_unroll = 4
+                heap = {"self.args": ListV(tuple(args), "list"), "self.kwargs": DictV([(Const("watch"), ListV(tuple(Const(w) for w in watch), "list"))] if watch else []),
+                        "self.dm": ObjV("dm", "FunctionDecoratorManager"), "self.state_check_now": NONE, "self._ast_expression": NONE, "self.name": Const("f")}
+                out = run_flow(program, vuid, pol, args={"self": ObjV("self", "StateTriggerDecorator")}, heap=heap)
+                got = set()
+                for k, c, d in exits(out):
+                    t = c.heap.get("self.state_trig_ident")
+                    got.add(tuple(sorted(x.v for x in t.items)) if isinstance(t, ListV) and k == "return" else d)
+                ctx.check(got == {tuple(want)}, rid, vuid, f"new subsystem: {label}", msg=f"StateTriggerDecorator.validate with {label}: watches {sorted(got)}, specified {want}: "
+                          f"changes of an entity that is not subscribed never reach the trigger", key=f"new watched set {label}", node=program.func(vuid), rel="decorators/state.py")
+                # legacy: the subscription made by trigger_watch
+                over = {"self.state_trig_ident_any": ListV(tuple(Const(n) for n in any_names), "set"), "self.state_trig_eval": ObjV("fexpr", "AstEval") if has_expr else NONE,
+                        "self.state_user_watch": ListV(tuple(Const(w) for w in watch), "list") if watch else NONE, "self.state_trig_ident": NONE}
+                recs, _, _ = _legacy_subscription(program, over)
+                got = {tuple(sorted(x.v for x in r[0].items)) if r and isinstance(r[0], ListV) else repr(r) for r in recs}
+                want = sorted(watch) if watch is not None else sorted(set(any_names) | ({"d.e"} if has_expr else set()))  # the harness' expression reads d.e
+                ctx.check(got == {tuple(want)}, rid, WATCH, f"legacy: {label}", msg=f"legacy trigger_watch with {label}: subscribes to {sorted(got)}, specified {want}",
+                          key=f"legacy watched set {label}", node=program.func(WATCH), rel="trigger.py")
+
+
+def _legacy_subscription(program, over):
+    from ..legacy import watch_occurrence
+    orig = dict(over)
+    # the expression's names come from get_names of the expression object
+    recs, a, b = watch_occurrence(program, "state", filter_value=True if orig.get("self.state_trig_eval") is not NONE else None, heap_over=orig)
+    subs = []
+    for r in recs:
+        for s_ in r["subscribed"]:
+            subs.append(s_)
+    return subs, a, b
+
+
+def var_get_table(ctx, program, rid):
+    """State.notify_var_get on every small combination of requested name, event values, last known values and existence."""
+    uid = "state.py::State.notify_var_get"
+    last_obj, old_obj, new_obj = ObjV("last_de", "StateVal"), ObjV("old_de", "StateVal"), ObjV("new_de", "StateVal")
+    names = ["d.e", "d.e.attr", "d.e.old", "d.e.old.attr", "d.other", "d.other.attr", "d.other.old.attr", "plain", "a.b.c.d.e"]
+    for name in names:
+        for ev in (False, True):            # the event carries d.e and d.e.old
+            for known in (False, True):     # a last value of d.e is recorded
+                for exists in (False, True):
+                    new_vars = DictV([(Const("d.e"), new_obj), (Const("d.e.old"), old_obj)] if ev else [])
+                    heap = {"State.notify_var_last": DictV([(Const("d.e"), last_obj)] if known else []),
+                            "last_de.attr": Const("last-attr"), "old_de.attr": Const("old-attr"), "new_de.attr": Const("new-attr")}
+                    pol = FlowPolicy(program, may_raise_all=False, cancel=False, summaries={"cls.exist": lambda i, n, a, k, c, o, e=exists: [(c, Const(e))]})
+                    pol.loop_unroll = 3
+                    out = run_flow(program, uid, pol, args={"cls": ClassV("State"), "var_names": ListV((Const(name),), "list"), "new_vars": new_vars}, heap=heap)
+                    parts = name.split(".")
+                    ent = ".".join(parts[:2])
+                    # reference (documentation of state trigger expressions + the behaviour confirmed on the reviewed tree)
+                    if ev and name in ("d.e", "d.e.old"):
+                        want = {"d.e": new_obj, "d.e.old": old_obj}[name]
+                    elif known and name == "d.e":
+                        want = last_obj
+                    elif known and len(parts) == 3 and ent == "d.e":
+                        want = Const("last-attr") if parts[2] == "attr" else Const(None)
+                    elif ev and len(parts) == 4 and parts[2] == "old" and ent == "d.e":
+                        want = Const("old-attr")
+                    elif 2 <= len(parts) <= 4 and not exists:
+                        want = Const(None)
+                    else:
+                        want = "absent"
+                    got = set()
+                    for k, c, d in exits(out):
+                        r = c.env.get("$ret")
+                        if k != "return" or not isinstance(r, DictV):
+                            got.add(d)
+                        else:
+                            v = r.get(Const(name))
+                            got.add("absent" if v is None else v)
+                    label = f"{name}: event {'carries' if ev else 'lacks'} d.e, last value {'known' if known else 'unknown'}, name {'exists' if exists else 'does not exist'}"
+                    ctx.check(got == {want}, rid, uid, label, msg=f"notify_var_get(['{name}']) with {label}: value {sorted(map(repr, got))}, specified {want!r}: the trigger expression is evaluated "
+                              f"with a wrong or missing value (NameError/AttributeError makes the trigger false)", key=f"var_get {label}", node=program.func(uid), rel="state.py")
